@@ -53,8 +53,14 @@ drop partitions, drop elements) keeping the same symptom.  The label is
 ``<op>:<op parameter features>&<layout features of the minimal witness>:<symptom>``
 where layout features are ``empty-bag | first-partition-empty | empty-partition``
 and ``npartitions>1``, and the symptom is ``values`` / ``order`` /
-``ExcType@file.py:function``.  If no single step reproduces the failure the
-label names the whole pipeline (``a>b@<layout style>``).
+``ExcType@file.py:function``.  If no single step reproduces the failure, the
+ORIGINAL pipeline is recomputed with bag's optimisation minus its ``lazify`` pass
+(``dask.config.set(bag_optimize=...)``, diagnosis only): if that agrees with the
+reference the label is ``lazify:<how the partition is read twice>:<symptom>``
+(``product(self)`` | ``item-argument`` | ``input-used-twice``).  Otherwise the
+shortest failing suffix / sub-pipeline is searched and shrunk and the label names
+it (earlier steps by class: ``elementwise>concat>zip:...``; ``unshrunk`` when the
+failure cannot be reproduced on a rebuilt bag).
 
 Calibration (unchanged tree, seeds 0, 1, 2, 7, 12345):
 
@@ -134,15 +140,17 @@ PENDING = {
         "same mechanism when binop accepts a list (mul, max on lists ...): silently wrong values such as [[], [], []]",
     "fold:initial&empty-bag&npartitions>1:TypeError@bag/core.py:_reduce":
         "Bag.fold(binop, initial=x) on a bag whose (>1) partitions are all empty raises TypeError instead of returning x",
-    "elementwise>concat>input-used-twice:any:values":
-        "a lazily evaluated (filter/map/...) partition that leaves a fused chain through concat's alias task is read by two tasks "
-        "(zip(b, b.map(f)), map(f, b2), product with a multi-partition bag ...): elements are lost",
-    "elementwise>concat>input-used-twice:unshrunk:values":
-        "same mechanism, witness not reproducible on a rebuilt bag (depends on the key order seen by fuse_linear_task_spec)",
-    "elementwise>product:self:values":
-        "b.product(b) on a bag whose partitions are lazily evaluated (map/filter/starmap/...) returns [] (itertools.product(it, it))",
-    "repartition>product:self&first-partition-empty&npartitions>1:values":
-        "same mechanism as elementwise>product:self with repartition (shrinking: lazy toolz.concat) as the producer",
+    "lazify:input-used-twice:values":
+        "a lazily evaluated (filter/map/...) partition leaves a fused chain through the alias task of concat/repartition and is read "
+        "by two tasks (zip(b, b.map(f)), product with a multi-partition bag ...): elements are lost; correct when lazify is skipped",
+    "lazify:input-used-twice:ValueError@bag/core.py:check_all_iterators_consumed":
+        "same mechanism when the second reader is Bag.map(f, other_bag): 'map called with multiple bags that aren't identically partitioned'",
+    "lazify:product(self):values":
+        "b.product(b) on a bag whose partitions are lazily evaluated (map/filter/starmap/repartition ...) returns [] "
+        "(itertools.product(it, it) on one iterator); correct when lazify is skipped",
+    "lazify:item-argument:values":
+        "b.map(f, y=b.count()) / starmap(..., z=b.count()): tasks cloned for the Item argument are wrapped in ProhibitReuse._identity, "
+        "lazify strips their reify, and a partition read by two cloned tasks (zip(b0, b0.map(g))) is consumed once: wrong Item value",
 }
 
 
@@ -1206,6 +1214,31 @@ def _actual_parts(steps, states, bag, st_in):
     return parts
 
 
+def _optimize_without_lazify(dsk, keys, fuse_keys=None, **kwargs):
+    """dask.bag.core.optimize minus its last pass (diagnosis only)"""
+    from dask._task_spec import convert_legacy_graph, cull, fuse_linear_task_spec
+    from dask.core import flatten
+
+    dsk = convert_legacy_graph(dsk)
+    keys = list(flatten(keys))
+    return fuse_linear_task_spec(cull(dsk, keys), keys + (fuse_keys or []))
+
+
+def _agrees_without_lazify(steps, states, bag, sched):
+    import dask
+
+    try:
+        out = steps[-1].ref(states[-1])
+        fin = out if isinstance(out, Final) else _final_of(out)
+        with dask.config.set(bag_optimize=_optimize_without_lazify):
+            sym, tag, _ = _symptom(steps, states, bag, fin, sched)
+        return tag == "ok" and sym is None
+    except G_TIMEOUT:
+        raise
+    except Exception:  # noqa: BLE001
+        return False
+
+
 def _explain(steps, st_in, parts, sched, how="delayed"):
     st = St(st_in.kind, [list(p) for p in parts], None, st_in.ordered, st_in.sub)
     try:
@@ -1239,7 +1272,25 @@ def _diagnose(ctx, steps, states, bag, parts, layout, sym, sched, detail):
             ctx.violation(_label([step], mini, s1, how), "%s on partitions %r: %s"
                           % (step.desc, mini, _explain([step], st_in, mini, sched, how)), **detail)
             return
-    # 2. only the pipeline as a whole fails: drop steps, then shrink the data
+    # 2. only the pipeline as a whole fails.  Root-cause probe on the ORIGINAL bag (same key names): the same pipeline
+    #    computed with the bag optimisation minus its ``lazify`` pass.  If that agrees with the reference, the failure
+    #    is a partition left lazily evaluated by ``lazify`` and read more than once; label by how it is read.
+    if _agrees_without_lazify(steps, states, bag, sched):
+        last = steps[-1]
+        if last.name == "product" and "self" in last.feats:
+            how_read = "product(self)"
+        elif "item-arg" in last.feats or "item-kwarg" in last.feats:
+            how_read = "item-argument"
+        elif TWICE_FEATS.intersection(last.feats):
+            how_read = "input-used-twice"
+        else:
+            how_read = last.name
+        detail.update(diagnosis="agrees with the reference when bag.core.lazify is skipped")
+        ctx.violation("lazify:%s:%s" % (how_read, sym),
+                      "pipeline %s: expected %s got %s (correct without the lazify optimisation)"
+                      % (detail["pipeline"], detail["expected"][:300], detail["got"][:300]), **detail)
+        return
+    # 3. drop steps, then shrink the data
     st0 = states[0]
     for how in hows:
         if _psym(steps, st0, parts, sched, how) == sym:
